@@ -78,6 +78,17 @@ pub fn machines(opts: &Opts) -> Vec<MCfg> {
         m.seeds = vec![0];
         out.push(m);
     }
+    {
+        // an update between passes over a graph that still holds the old parameter: the new parameter is a
+        // new array (a later pass over the old graph, and a second update, leave it alone)
+        let mut m = base_cfg("update-then-old-graph", crate::checks::c10::same_shape_leaves(var), vec![OpK::Mul, OpK::Add], 5);
+        m.bounds = Bounds { builds: 1, passes: 2, updates: 2, clones: 1, depth: if opts.tier == Tier::Quick { 5 } else { 6 }, ..Bounds::default() };
+        m.check_snapshot = true;
+        m.check_ref = true;
+        m.seeds = vec![0];
+        m.update_slots = vec![0, 1];
+        out.push(m);
+    }
     match opts.tier {
         Tier::Quick => {
             out.push(mk(
@@ -320,9 +331,80 @@ fn explore_model_spares(opts: &Opts) -> Local {
     })
 }
 
+/// An update whose gradients were written by hand under other dimensions (same element count): the
+/// parameter handle keeps its dimensions, older handles keep everything.
+fn explore_reshaped_gradients(opts: &Opts) -> Local {
+    use corgi::numbers::Float;
+    use corgi::optimizer::Optimizer;
+    let var = opts.seed % 3;
+    let dims_pool: Vec<Vec<usize>> = vec![vec![2, 3], vec![6], vec![3, 1, 2], vec![1, 4], vec![2, 2]];
+    let mut cases: Vec<(usize, usize, usize)> = Vec::new();
+    for a in 0..dims_pool.len() {
+        for b in 0..dims_pool.len() {
+            for which in 0..3usize {
+                cases.push((a, b, which));
+            }
+        }
+    }
+    par(opts, cases.len(), |i, l| {
+        let (a, b, which) = cases[i];
+        let (da, db) = (&dims_pool[a], &dims_pool[b]);
+        let case = || format!("update with hand-written gradients under other dimensions: parameters {:?} {:?}, reshaped gradient on {}", da, db, ["the first", "the second", "both"][which]);
+        if !l.want(&case) {
+            return;
+        }
+        l.states += 1;
+        l.transitions += 1;
+        l.validated += 1;
+        let (da, db) = (da.clone(), db.clone());
+        let r = run_catch(move || {
+            let mut msgs: Vec<String> = Vec::new();
+            let n = |d: &Vec<usize>| d.iter().product::<usize>();
+            let other = |d: &Vec<usize>| -> Vec<usize> { if d.len() == 1 { vec![1, d[0]] } else { vec![n(d)] } };
+            let mut p: Vec<Array> = vec![
+                Array::from((da.clone(), crate::shapes::vals_signed(n(&da), 0, var).iter().map(|v| *v as Float).collect::<Vec<Float>>())).tracked(),
+                Array::from((db.clone(), crate::shapes::vals_signed(n(&db), 1, var).iter().map(|v| *v as Float).collect::<Vec<Float>>())).tracked(),
+            ];
+            let older: Vec<Array> = p.iter().cloned().collect();
+            let before: Vec<(Vec<usize>, Vec<Float>)> = p.iter().map(|x| (x.dimensions().to_vec(), x.values().to_vec())).collect();
+            for k in 0..2 {
+                let d = if k == 0 { &da } else { &db };
+                let reshaped = which == 2 || which == k;
+                let gd = if reshaped { other(d) } else { d.clone() };
+                *p[k].gradient_mut() = Some(Array::from((gd, crate::shapes::vals(n(d), k + 2, var).iter().map(|v| *v as Float).collect::<Vec<Float>>())));
+            }
+            let opt = corgi::optimizer::gd::GradientDescent::new(0.5);
+            opt.update(p.iter_mut().collect());
+            for k in 0..2 {
+                if p[k].dimensions() != &before[k].0[..] {
+                    msgs.push(format!("parameter {} shows dimensions {:?} after the update, {:?} before", k, p[k].dimensions(), before[k].0));
+                }
+                if p[k].values().len() != before[k].1.len() {
+                    msgs.push(format!("parameter {} changed its element count", k));
+                }
+                if older[k].dimensions() != &before[k].0[..] || older[k].values().iter().zip(&before[k].1).any(|(x, y)| x.to_bits() != y.to_bits()) {
+                    msgs.push(format!("the older handle of parameter {} changed", k));
+                }
+            }
+            msgs
+        });
+        match r {
+            Err(m) => l.violation("update-reshaped-gradient", case(), format!("panicked: {}", m)),
+            Ok(msgs) => {
+                l.outcome(digest_str(&format!("{}{}", case(), msgs.len())));
+                if !msgs.is_empty() {
+                    l.violation("update-reshaped-gradient", case(), msgs.join("; "));
+                }
+            }
+        }
+        l.sample(&case);
+    })
+}
+
 pub fn explore(opts: &Opts) -> Explored {
     let (mut local, stats) = run_all(opts, machines(opts));
     local.merge(explore_model_spares(opts));
+    local.merge(explore_reshaped_gradients(opts));
     Explored {
         local,
         bounds: json!({"machines": stats, "source_audit_supporting_information_only": source_audit()}),
